@@ -71,6 +71,7 @@ REG['C17'] = dict(
     oracle='c17', profiles=[('tv', 3, None), ('dyn', 1, None)],
     quick=10000, thorough=250000,
     vacuity=['dumps_checked', 'after_run', 'after_reset', 'after_continuation',
+             'prefix_checks',
              'F_STOP', 'exports', 'snapshots',
              'subset_WormWheel:m', 'subset_WormWheel:mb', 'subset_WormGear:',
              'subset_WormGear:d', 'subset_SpurGear:mbE', 'subset_SpurGear:mb',
@@ -83,6 +84,7 @@ REG['C17'] = dict(
 REG['C18'] = dict(
     oracle='c18', profiles=[('query', 1, None)],
     quick=8000, thorough=200000,
+    thorough_cfg={'exhaustive_subsets': True},
     vacuity=['snapshots', 'exports', 'snapshot_on_instant', 'snapshot_between',
              'snapshot_selected_vars', 'snapshot_default_vars',
              'snapshot_values', 'export_rows', 'F_IO',
